@@ -197,6 +197,11 @@ def compile_funcs(spec, xp, with_margins=False):
             mname = "__margin_" + name
             exec(function_source(mname, f, "margin"), ns)  # noqa: S102
             out[mname] = ns[mname]
+    # one Python callable registered under several names (a generic law of motion re-used for
+    # several states; each name keeps its own parameter block)
+    for name, f in spec.functions.items():
+        if f.get("same_as"):
+            out[name] = out[f["same_as"]]
     return out
 
 
@@ -221,12 +226,16 @@ def to_lcm_grid(g):
     return LogspaceGrid(start=g[1], stop=g[2], n_points=g[3])
 
 
-def to_lcm_model(spec):
+def to_lcm_model(spec, wrap=None):
+    """wrap: optional callable (name, function) -> function applied to every compiled model
+    function (used to present the same functions as other kinds of callables)."""
     import jax.numpy as jnp
     import lcm
     from lcm import Model
 
     fs = compile_funcs(spec, jnp)
+    if wrap is not None:
+        fs = {n: wrap(n, f) for n, f in fs.items()}
     for n, f in spec.functions.items():
         if f.get("stochastic"):
             fs[n] = lcm.mark.stochastic(fs[n])
@@ -312,6 +321,44 @@ def reorder(spec, state_order=None, choice_order=None, function_order=None):
     if function_order is not None:
         new.functions = {k: spec.functions[k] for k in function_order}
     return new
+
+
+def share_callable(spec):
+    """Add a continuous state <s>_dup that follows the SAME law of motion as an existing
+    continuous state s - literally the same Python callable, registered a second time as
+    next_<s>_dup - but with its own parameter values. Returns None if no state qualifies."""
+    for s_, g in spec.states.items():
+        n = f"next_{s_}"
+        f = spec.functions[n]
+        if g[0] == "disc" or f.get("stochastic") or f.get("same_as"):
+            continue
+        new = spec.copy()
+        dup = s_ + "_dup"
+        args, body = list(f["args"]) + ["dup_shift"], f"({f['body']}) + dup_shift"
+        new.functions[n] = {**f, "args": args, "body": body}
+        new.params[n] = {**dict(spec.params.get(n, {})), "dup_shift": 0.0}
+        new.states[dup] = g
+        new.functions[f"next_{dup}"] = {"args": args, "body": body, "same_as": n}
+        new.params[f"next_{dup}"] = {k: float(v) * 0.8 + 0.05 for k, v in new.params[n].items()}
+        new.params[f"next_{dup}"]["dup_shift"] = 0.07 * (float(g[2]) - float(g[1]))
+        u = new.functions["utility"]
+        new.functions["utility"] = {**u, "args": [*u["args"], dup], "body": f"({u['body']}) + 0.01 * {dup}"}
+        return new
+    return None
+
+
+def with_signature_attribute(name, fn):
+    """The same function as a plain forwarding callable that carries an explicit __signature__
+    attribute (what dags.signature.with_signature / rename_arguments and many decorator libraries
+    produce)."""
+    import inspect
+
+    def forward(*args, **kwargs):
+        return fn(*args, **kwargs)
+
+    forward.__signature__ = inspect.signature(fn)
+    forward.__name__ = getattr(fn, "__name__", name)
+    return forward
 
 
 def twin(spec):
